@@ -37,16 +37,16 @@ type c18Op struct {
 func (o c18Op) String() string { return fmt.Sprintf("%s %s %s", o.Kind, o.Path, o.Doc) }
 
 type c18Case struct {
-	Part    string  `json:"part"`
-	Schema  string  `json:"schema"`
-	Store   string  `json:"store"`
-	Init    string  `json:"init"`
-	Depth   int     `json:"depth"`
-	NoDedup bool    `json:"nodedup,omitempty"`
+	Part    string `json:"part"`
+	Schema  string `json:"schema"`
+	Store   string `json:"store"`
+	Init    string `json:"init"`
+	Depth   int    `json:"depth"`
+	NoDedup bool   `json:"nodedup,omitempty"`
 	// Held: every operation goes through ONE selection of list l taken before the history starts
 	// (entries are reached by iterating it), the way a caller works that keeps the list at hand.
-	Held bool `json:"held,omitempty"`
-	Ops     []c18Op `json:"ops,omitempty"`
+	Held bool    `json:"held,omitempty"`
+	Ops  []c18Op `json:"ops,omitempty"`
 }
 
 var c18Inits = map[string]string{
@@ -492,8 +492,10 @@ func (p *c18) Run(raw json.RawMessage) eng.Result {
 			}
 			return en
 		},
-		Step:    func(inst *c18Inst, op c18Op) []eng.StepViol { return c18Step(c, inst, op) },
-		Key:     func(inst *c18Inst) string { return inst.env.snap().Canon(m.DataDefinitions(), model.CanonOpts{IgnoreEntryOrder: inst.env.st.MapLists()}) },
+		Step: func(inst *c18Inst, op c18Op) []eng.StepViol { return c18Step(c, inst, op) },
+		Key: func(inst *c18Inst) string {
+			return inst.env.snap().Canon(m.DataDefinitions(), model.CanonOpts{IgnoreEntryOrder: inst.env.st.MapLists()})
+		},
 		Depth:   c.Depth,
 		NoDedup: c.NoDedup,
 	}
